@@ -328,7 +328,7 @@ func Run(tier string) {
 	}
 	// the reader as a machine: every Read call of every behaviour of ArmorRead.tla replayed against armor.NewReader
 	if run.Thorough() {
-		armrd.Run(run, "reader-machine-full-alphabet", armrd.Config(2, 1, 9, 1, "{1, 48}", 6, false, true), "", 0)
+		armrd.Run(run, "reader-machine-full-alphabet", armrd.Config(2, 1, 8, 1, "{48}", 5, false, true), "", 0)
 		armrd.Run(run, "reader-machine", armrd.Config(1, 1, 9, 2, "{0, 1, 47, 48, 100}", 8, false, true), "", 0)
 		armrd.Run(run, "reader-machine-2dev", armrd.Config(1, 2, 8, 1, "{1, 48}", 6, false, true), "", 0)
 		armrd.Run(run, "reader-machine-all-seqs", armrd.Config(0, 0, 6, 1, "{1, 48, 100}", 8, false, true), "", 0)
